@@ -43,11 +43,11 @@ Section SpecFacts.
   Qed.
 
   (* a loop never ends with Break or Continue: they act on the innermost loop only *)
-  Lemma o_while_consumes_signals body c : forall j st s,
-    o_while ev body c j st <> OR OBreak s /\ o_while ev body c j st <> OR OContinue s.
+  Lemma o_while_consumes_signals body c l : forall j st s,
+    o_while ev body c l j st <> OR OBreak s /\ o_while ev body c l j st <> OR OContinue s.
   Proof.
     induction j as [|j IH]; intros st s; cbn [o_while]; [split; discriminate|].
-    destruct (ev st c) as [cv s1|e s1| |w]; cbn [ebind]; try (split; discriminate).
+    destruct (ev (set_line st l) c) as [cv s1|e s1| |w]; cbn [ebind]; try (split; discriminate).
     destruct cv; try (split; discriminate). destruct b; [|split; discriminate].
     destruct (body s1) as [[v|v| | |e] s2| |w]; try (split; discriminate); apply IH.
   Qed.
@@ -60,13 +60,13 @@ Section SpecFacts.
   Qed.
 
   (* 每当 re-tests its condition before every pass *)
-  Lemma o_while_unfold body c j st :
-    o_while ev body c (S j) st =
-    ebind (ev st c) (fun cv s1 =>
+  Lemma o_while_unfold body c l j st :
+    o_while ev body c l (S j) st =
+    ebind (ev (set_line st l) c) (fun cv s1 =>
       match cv with
       | VBool true =>
         match body s1 with
-        | OR (ONormal _) s2 | OR OContinue s2 => o_while ev body c j s2
+        | OR (ONormal _) s2 | OR OContinue s2 => o_while ev body c l j s2
         | OR OBreak s2 => OR (ONormal VNull) s2
         | o => o
         end
@@ -76,9 +76,9 @@ Section SpecFacts.
   Proof. reflexivity. Qed.
 
   (* a Return inside the body ends the loop with that Return, whatever the remaining passes would do *)
-  Lemma o_while_return body c j st s1 v s2 :
-    ev st c = Ok (VBool true) s1 -> body s1 = OR (OReturn v) s2 ->
-    o_while ev body c (S j) st = OR (OReturn v) s2.
+  Lemma o_while_return body c l j st s1 v s2 :
+    ev (set_line st l) c = Ok (VBool true) s1 -> body s1 = OR (OReturn v) s2 ->
+    o_while ev body c l (S j) st = OR (OReturn v) s2.
   Proof. intros H1 H2. cbn [o_while]. rewrite H1. cbn [ebind]. rewrite H2. reflexivity. Qed.
 
   Lemma o_iter_return body names key item tl st v s2 :
